@@ -58,9 +58,21 @@ func lockAnalysis(c *core.Ctx) *eng.LockAnalysis {
 	if la, ok := lockCache[c.P]; ok {
 		return la
 	}
-	la := eng.NewLockAnalysis(c.P.ScopeFuncs(), c.P.CG(), guardTable, syncHOF)
+	la := eng.NewLockAnalysis(c.P.ScopeFuncs(), c.P.CG(), guardTable, syncHOF, func(f *ssa.Function, class string) bool {
+		for _, e := range lockExemptions {
+			if strings.HasSuffix(fnName(f), e.fnSuffix) && class == e.class {
+				return true
+			}
+		}
+		return false
+	})
 	lockCache[c.P] = la
 	return la
+}
+
+// lockExemptions: tabled single-symbol exceptions (read accesses only), with a reason each.
+var lockExemptions = []lockException{
+	{fnSuffix: "internal/service/cluster.Peer).processSendQueue", class: M + "service/cluster.Peer.Mutex", reason: "unlocked emptiness probe len(p.frame)==0: a racy read whose worst case is one 5 ms tick of delay; the frame itself is taken by swap under the lock"},
 }
 
 // lockException is a tabled single-symbol exception: function name -> reason.
@@ -121,6 +133,18 @@ func lockRule(c *core.Ctx, rule string, owners []string, exceptions []lockExcept
 				c.OK(rule, fmt.Sprintf("access:%s:%s:%s", kk.fn, kk.field, kk.mode), a.Instr.Pos(), how)
 			}
 		}
+	}
+	for _, a := range la.Exempted {
+		if !own[a.G.Owner] {
+			continue
+		}
+		reason := ""
+		for _, e := range lockExemptions {
+			if strings.HasSuffix(fnName(a.Instr.Parent()), e.fnSuffix) {
+				reason = e.reason
+			}
+		}
+		c.OK(rule, fmt.Sprintf("tabled-exception:%s:%s.%s", fnName(a.Instr.Parent()), shortT(a.G.Owner), a.G.Field), a.Instr.Pos(), "tabled exception (read only): "+reason)
 	}
 	for _, fd := range la.Findings {
 		hit := false
